@@ -243,6 +243,12 @@ def check_corruptions(spec, ctx):
     expect_refusal(ctx, "Parent:conflicting_ids", lambda: Parent(id="p1", sequence=Sequence(g, Alphabet.NT_STRICT, id="p2")), lambda x: "accepted")
     expect_refusal(ctx, "Parent:longer_than_its_parent", lambda: Parent(sequence=Sequence(g + "AA", Alphabet.NT_STRICT), parent=Parent(sequence=Sequence(g, Alphabet.NT_STRICT))), lambda x: "accepted")
     expect_refusal(ctx, "Sequence:wrong_alphabet", lambda: Sequence(g + "Z!", Alphabet.NT_STRICT), lambda x: "accepted")
+    # one foreign character (white space, control character, digit, punctuation, a letter of another alphabet) at the start, in the
+    # middle or at the very end of otherwise valid data, for several alphabets
+    for where, ch, alpha in spec.get("bad_chars") or [["end", "\n", "NT_STRICT"], ["start", " ", "NT_EXTENDED"], ["middle", "J", "NT_EXTENDED_GAPPED"]]:
+        data = {"start": ch + g, "middle": g[: n // 2] + ch + g[n // 2:], "end": g + ch}[where]
+        expect_refusal(ctx, "Sequence:foreign_character_at_" + where, lambda data=data, alpha=alpha: Sequence(data, Alphabet[alpha]), lambda x: "accepted %r" % str(x)[-6:])
+        expect_refusal(ctx, "Sequence.validate_alphabet:foreign_character_at_" + where, lambda data=data, alpha=alpha: Sequence.validate_alphabet(data, Alphabet[alpha]) or "validated", lambda x: "accepted")
     expect_refusal(ctx, "Sequence:parent_location_length", lambda: Sequence(g, Alphabet.NT_STRICT, parent=Parent(location=SingleInterval(0, n + 1, Strand.PLUS))), lambda x: "accepted")
     expect_refusal(ctx, "Sequence:revcomp_protein", lambda: Sequence("MKV", Alphabet.AA).reverse_complement(), lambda x: "accepted")
     # --- codons (value objects kept in a process-wide registry)
@@ -657,7 +663,9 @@ def strat_corrupt(draw, tier="quick"):
     b = draw(st.integers(a + 1, n - 1))
     bad = draw(st.lists(st.one_of(st.text(alphabet="ACGTUNRYacgt", min_size=0, max_size=5).filter(lambda x: len(x) != 3),
                                   st.text(alphabet="ACGT-?XZ*. 1", min_size=3, max_size=3).filter(lambda x: any(ch in "-?XZ*. 1" for ch in x))), min_size=2, max_size=5))
-    return {"genome": draw(S.dna(n, n)), "tx": t, "feat": f, "a": a, "b": b, "bad_codons": bad}
+    bad_chars = draw(st.lists(st.tuples(st.sampled_from(["start", "middle", "end", "end"]), st.sampled_from(["\n", "\r", "\t", " ", "\x00", "\x0b", "0", "7", ".", "*", "?", "J", "O", "Z", "é", "\u00a0", "\r\n", "\n\n"]),
+                                        st.sampled_from(["NT_STRICT", "NT_EXTENDED", "NT_EXTENDED_GAPPED", "NT_STRICT_GAPPED", "NT_STRICT_UNKNOWN"])).map(list), min_size=2, max_size=5))
+    return {"genome": draw(S.dna(n, n)), "tx": t, "feat": f, "a": a, "b": b, "bad_codons": bad, "bad_chars": bad_chars}
 
 
 @st.composite
